@@ -8,7 +8,7 @@
                        t = also print the oracle for the transformed pairs (translate, reflect, swap): TR=
                        - = nothing extra
         pats: comma separated 9-letter patterns or "-"
-     -> "valid=ab scope=ab dims=dA,dB M=<mod2>,<endpoint>,<multivalent>,<monovalent> MT=<mod2 matrix of (B,A)> sideok=0/1
+     -> "valid=ab scope=ab dims=dA,dB M=<mod2>,<endpoint>,<multivalent>,<monovalent> MT=<mod2 matrix of (B,A)> sideok=0/1 epsok=0/1
          fragile=<number of nodes that are not binary64 points and lie on >= 3 segments> inexact=<nodes that are not binary64 points>
          named=<11 chars 0/1: intersects disjoint touches crosses within contains overlaps equals covers coveredBy containsProperly>
          pat=<0/1 per pattern> nw=<witnesses> nn=<nodes> ns=<segments> ea=<envelope A> eb=<envelope B> [SPEC=..] [ev=..] [TR=m,m,m,m]"
@@ -100,8 +100,8 @@ let () =
            let fr = fragile_nodes ga gb in
            let nx = List.length (List.filter (fun q -> not (representable q)) (nodes ga gb)) in
            (match fr with ((x, y), w) :: _ -> Buffer.add_string extra (Printf.sprintf " fnode=%s/%s/%s" (string_of_z x) (string_of_z y) (string_of_z w)) | [] -> ());
-           Printf.printf "%s M=%s MT=%s sideok=%c fragile=%d inexact=%d named=%s pat=%s nw=%d nn=%d ns=%d%s\n" head
-             (String.concat "," (List.map mstr ms)) (mstr mt) (b sok) (List.length fr) nx (bstr named)
+           Printf.printf "%s M=%s MT=%s sideok=%c epsok=%c fragile=%d inexact=%d named=%s pat=%s nw=%d nn=%d ns=%d%s\n" head
+             (String.concat "," (List.map mstr ms)) (mstr mt) (b sok) (b (eps_ok ga gb)) (List.length fr) nx (bstr named)
              (String.concat "" (List.map (fun p -> String.make 1 (pm m p)) pl))
              (List.length (witnesses ga gb)) (List.length (nodes ga gb)) (List.length (all_segs ga gb)) (Buffer.contents extra)
          end
@@ -109,6 +109,19 @@ let () =
     | "P" :: ms :: pats :: _ when String.length ms = 9 ->
       let m = List.map (fun c -> match c with 'F' -> z_of_int (-1) | '0' -> z_of_int 0 | '1' -> z_of_int 1 | _ -> z_of_int 2) (explode ms) in
       print_endline (String.concat "" (List.map (fun p -> String.make 1 (pm m p)) (List.filter (fun s -> String.length s = 9) (String.split_on_char ',' pats))))
+    | "E" :: rest ->
+      (* debugging: the side paths that eps_ok rejects, with the ring segment they may meet *)
+      (match split_semi rest with
+       | [ ta; tb ] ->
+         let (ga, _) = take_geom ta and (gb, _) = take_geom tb in
+         let rs = List.filter (fun (c, d) -> c <> d) (ring_segs ga @ ring_segs gb) in
+         let sh ((x, y), w) = Printf.sprintf "%s/%s/%s" (string_of_z x) (string_of_z y) (string_of_z w) in
+         let sp (x, y) = Printf.sprintf "(%s %s)" (string_of_z x) (string_of_z y) in
+         List.iter (fun ((((a, b0), sg), m), p) ->
+           List.iter (fun (c, d) -> if not (side_clear [(c, d)] sg a b0 m p) then
+             Printf.printf "seg %s-%s mid %s side %s meets? %s-%s; " (sp a) (sp b0) (sh m) (sh p) (sp c) (sp d)) rs) (side_paths ga gb);
+         print_endline "."
+       | _ -> print_endline "PARSE-ERROR expected <geom> ; <geom>")
     | "W" :: rest ->
       (match split_semi rest with
        | [ ta; tb ] ->
